@@ -36,13 +36,14 @@ def exhaustive(tier):
 def required(tier):
     return {"bundled_facts": 3000, "generated_files": 20, "paths_compared": 100,
             "battery_answers": 20000, "illformed_cases": 40, "truth_factor_checks": 500,
-            "cache_edit_cases": 20}
+            "cache_edit_cases": 20, "relined_factor_checks": 300}
 
 
 def shards(tier, seed):
     out = [{"kind": "bundled", "nit": n, "name": f"bundled-{n}"} for n in NIT]
     for i in range(4 if tier == "quick" else 12):
         out.append({"kind": "generated", "name": f"gen{i}", "n": 8 if tier == "quick" else 80})
+    out.append({"kind": "relined", "name": "relined", "n": 30 if tier == "quick" else 300})
     out.append({"kind": "illformed", "name": "illformed", "n": 1 if tier == "quick" else 6})
     for i in range(2 if tier == "quick" else 6):
         out.append({"kind": "cache-edit", "name": f"cache-edit{i}", "n": 6 if tier == "quick" else 40})
@@ -67,6 +68,8 @@ def run_shard(spec, rec):
         run_generated(spec, rec, rng, pint)
     elif spec["kind"] == "cache-edit":
         run_cache_edit(spec, rec, rng, pint)
+    elif spec["kind"] == "relined":
+        run_relined(spec, rec, rng, pint)
     else:
         run_illformed(spec, rec, rng, pint)
 
@@ -666,3 +669,79 @@ def run_illformed(spec, rec, rng, pint):
                                                              "units": sorted(set(ureg._units) - {"m", "s", "foot", "ft", "meter_", "kelv", "degx", "delta_degx"})[:8]},
                                       illformed_class=cls, path=path)
     rec.sample({"illformed_classes": sorted({c for c, _, _ in ILLFORMED})})
+
+
+
+def run_relined(spec, rec, rng, pint):
+    """A unit that a LATER line of the same text defines again (the later line is the one in force), with a
+    @system block and a @context block that name units built on it placed before, between or after the two
+    lines: every factor the registry reports - get_root_units, get_base_units, conversions - follows the last
+    line, wherever the blocks stand, whether the text comes from a file or from a list of lines."""
+    import os
+    import shutil
+    import tempfile
+    from fractions import Fraction as F
+    tmp = tempfile.mkdtemp(prefix="c10relined-")
+    try:
+        for i in range(spec["n"]):
+            nitname = ("fraction", "float", "decimal")[i % 3]
+            nit = NIT[nitname]
+            a1, a2 = F(rng.randint(2, 99), rng.choice((1, 4, 10))), F(rng.randint(101, 999), rng.choice((1, 8, 100)))
+            b, c = F(rng.randint(2, 40)), F(rng.randint(2, 40), rng.choice((1, 5)))
+            base = ["rm = [rlength]", "rs = [rtime]", "rg = [rmass]"]
+            first = f"ru1 = {a1.numerator} / {a1.denominator} * rm"
+            second = f"ru1 = {a2.numerator} / {a2.denominator} * rm"
+            deps = [f"ru2 = {b.numerator} * ru1", f"ru3 = {c.numerator} / {c.denominator} * ru2 / rs"]
+            system = ["@system rsys", "    ru2", "    rs", "@end"]
+            context = ["@context rctx", "    [rlength] -> [rtime]: value / (3 ru3)", "@end"]
+            where = rng.randrange(4)
+            if where == 0:      # blocks between the two lines
+                lines = base + [first] + deps + system + context + [second]
+            elif where == 1:    # blocks before the dependants are complete, redefinition last
+                lines = base + [first] + deps[:1] + system + deps[1:] + [second] + context
+            elif where == 2:    # blocks after both lines
+                lines = base + [first] + deps + [second] + system + context
+            else:               # the second line directly after the first
+                lines = base + [first, second] + deps + system + context
+            truth = {"ru1": a2, "ru2": b * a2, "ru3": c * b * a2}
+            from_file = i % 2 == 0
+            try:
+                if from_file:
+                    fn = os.path.join(tmp, f"relined{i}.txt")
+                    with open(fn, "w") as fh:
+                        fh.write("\n".join(lines) + "\n")
+                    ureg = pint.UnitRegistry(fn, non_int_type=nit, on_redefinition="ignore", cache_folder=None)
+                else:
+                    ureg = pint.UnitRegistry(lines, non_int_type=nit, on_redefinition="ignore", cache_folder=None)
+            except Exception as e:  # noqa: BLE001
+                rec.violation("generated-file-refused", {"text": "\n".join(lines), "err": repr(e)[:300]},
+                              workload="relined")
+                continue
+            w = {"text": "\n".join(lines), "blocks": ("between", "split", "after", "adjacent")[where],
+                 "from_file": from_file, "registry": nitname}
+            for u, want in truth.items():
+                probes = {
+                    "get_root_units": lambda: ureg.get_root_units(u)[0],
+                    "get_base_units": lambda: ureg.get_base_units(u)[0],
+                    "convert": lambda: ureg.convert(nit(1), u, "rm" if u != "ru3" else "rm / rs"),
+                    "to_root_units": lambda: ureg.Quantity(nit(1), u).to_root_units().magnitude,
+                }
+                for pname, fn_ in probes.items():
+                    rec.count("relined_factor_checks")
+                    rec.case(("relined", i, u, pname), nontrivial=True)
+                    try:
+                        got = fn_()
+                    except Exception as e:  # noqa: BLE001
+                        rec.violation("relined-probe-raised", dict(w, unit=u, probe=pname, err=repr(e)[:200]),
+                                      workload="relined", probe=pname)
+                        continue
+                    ok = (F(got) == want) if nit is F else abs(float(got) - float(want)) <= 1e-12 * float(want)
+                    if not ok:
+                        rec.violation("factor-not-from-the-last-definition",
+                                      dict(w, unit=u, probe=pname, got=str(got), want=str(want),
+                                           first_definition=str(a1), last_definition=str(a2)),
+                                      workload="relined", probe=pname, blocks=w["blocks"])
+            if i == 0:
+                rec.sample({"relined_text": lines})
+    finally:
+        shutil.rmtree(tmp, ignore_errors=True)
